@@ -718,12 +718,10 @@ func (e *Engine) execNext(s *State, fr *Frame, in *ssa.Next) {
 			e.setReg(fr, in, Tuple{ts.True, ts.Const(64, uint64(it.pos)), ts.Const(32, uint64(r))})
 			return
 		}
-		// symbolic: only single-byte runes supported
-		if !e.decide(s, ts.Cmp(OpUlt, b, ts.Const(8, 0x80))) {
-			unsup("range over symbolic string with non-ASCII byte")
-		}
-		e.wobj(s, p.obj).v = &IterV{str: it.str, pos: it.pos + 1}
-		e.setReg(fr, in, Tuple{ts.True, ts.Const(64, uint64(it.pos)), ts.ZExt(32, b)})
+		// symbolic bytes: UTF-8 decoding by case split (all decisions before any mutation)
+		r, sz := e.decodeRuneSym(s, bs[it.pos:])
+		e.wobj(s, p.obj).v = &IterV{str: it.str, pos: it.pos + sz}
+		e.setReg(fr, in, Tuple{ts.True, ts.Const(64, uint64(it.pos)), r})
 		return
 	}
 	// map: pick an arbitrary remaining key that is still present
@@ -860,4 +858,62 @@ func (e *Engine) implements(t types.Type, it *types.Interface) bool {
 		return true
 	}
 	return types.Implements(t, it)
+}
+
+// decodeRuneSym decodes the first UTF-8 sequence of symbolic bytes bs (len >= 1) exactly as
+// utf8.DecodeRune does: the rune (32-bit term) and its width; invalid or truncated sequences give
+// (RuneError, 1). Only decide() is used, so the caller may mutate state afterwards.
+func (e *Engine) decodeRuneSym(s *State, bs []*Term) (*Term, int) {
+	ts := e.ts
+	in := func(b *Term, lo, hi uint64) bool {
+		return e.decide(s, ts.And(ts.Cmp(OpUle, ts.Const(8, lo), b), ts.Cmp(OpUle, b, ts.Const(8, hi))))
+	}
+	bad := func() (*Term, int) { return ts.Const(32, 0xFFFD), 1 }
+	b0 := bs[0]
+	if e.decide(s, ts.Cmp(OpUlt, b0, ts.Const(8, 0x80))) {
+		return ts.ZExt(32, b0), 1
+	}
+	low6 := func(b *Term) *Term { return ts.ZExt(32, ts.BV(OpBAnd, b, ts.Const(8, 0x3F))) }
+	shl := func(t *Term, n uint64) *Term { return ts.BV(OpShl, t, ts.Const(32, n)) }
+	or := func(a, b *Term) *Term { return ts.BV(OpBOr, a, b) }
+	if in(b0, 0xC2, 0xDF) {
+		if len(bs) < 2 || !in(bs[1], 0x80, 0xBF) {
+			return bad()
+		}
+		hi := ts.ZExt(32, ts.BV(OpBAnd, b0, ts.Const(8, 0x1F)))
+		return or(shl(hi, 6), low6(bs[1])), 2
+	}
+	if in(b0, 0xE0, 0xEF) {
+		if len(bs) < 3 {
+			return bad()
+		}
+		lo1, hi1 := uint64(0x80), uint64(0xBF)
+		if e.decide(s, ts.Eq(b0, ts.Const(8, 0xE0))) {
+			lo1 = 0xA0
+		} else if e.decide(s, ts.Eq(b0, ts.Const(8, 0xED))) {
+			hi1 = 0x9F
+		}
+		if !in(bs[1], lo1, hi1) || !in(bs[2], 0x80, 0xBF) {
+			return bad()
+		}
+		hi := ts.ZExt(32, ts.BV(OpBAnd, b0, ts.Const(8, 0x0F)))
+		return or(or(shl(hi, 12), shl(low6(bs[1]), 6)), low6(bs[2])), 3
+	}
+	if in(b0, 0xF0, 0xF4) {
+		if len(bs) < 4 {
+			return bad()
+		}
+		lo1, hi1 := uint64(0x80), uint64(0xBF)
+		if e.decide(s, ts.Eq(b0, ts.Const(8, 0xF0))) {
+			lo1 = 0x90
+		} else if e.decide(s, ts.Eq(b0, ts.Const(8, 0xF4))) {
+			hi1 = 0x8F
+		}
+		if !in(bs[1], lo1, hi1) || !in(bs[2], 0x80, 0xBF) || !in(bs[3], 0x80, 0xBF) {
+			return bad()
+		}
+		hi := ts.ZExt(32, ts.BV(OpBAnd, b0, ts.Const(8, 0x07)))
+		return or(or(or(shl(hi, 18), shl(low6(bs[1]), 12)), shl(low6(bs[2]), 6)), low6(bs[3])), 4
+	}
+	return bad()
 }
